@@ -14,7 +14,8 @@ PROPERTY = 'C06'
 RULE = ("stateless sequence exploration: histories [S..] and [S,U,S..] of update(A')/solve(b,trans) replayed on fresh "
         "LDAWrapper objects; matrices = all 64 off-diagonal patterns of a 3x3 matrix x {real,complex} + all 8 symmetric "
         "patterns x {real symmetric, Hermitian, complex symmetric}; rhs alphabet b1,b2,2b1,b1+b2,0,b1+ib2,ib1,"
-        "[b1 b2],[b1 2b1 b2],[b1 b2 b1+b2],[b1 0],(n,1); trans N/T/H; update kinds same / same class other values / "
+        "[b1 b2],[b1 2b1 b2],[b1 b2 b1+b2],[b1 0],(n,1), plus a magnitude alphabet ([b1 1e-9 b2], 3e-9 b2, 2e-10 b1) and two live "
+        "wrappers on different matrices with interleaved solves; trans N/T/H; update kinds same / same class other values / "
         "other class; inner solvers: counting exact reference, DenseLU, DenseQR, SparseLU. A history is non-trivial if "
         "it contains at least two solves on a matrix that is not diagonal; distinct by (matrix, op list)")
 ASSUMPTIONS = ["3x3 well-conditioned value tables (diagonally dominant): the property is about the wrapper's "
@@ -134,11 +135,14 @@ def _rhs(name, t):
         'b1': b1, 'b2': b2, '2b1': 2 * b1, 'b1+b2': b1 + b2, 'zero': z, 'bc': b1 + 1j * b2, 'ib1': 1j * b1,
         'blk12': np.stack([b1, b2], 1), 'blkdep': np.stack([b1, 2 * b1, b2], 1),
         'blksum': np.stack([b1, b2, b1 + b2], 1), 'blkz': np.stack([b1, z], 1), 'col': b1.reshape(N, 1),
+        # widely different magnitudes: a column of order 1e-9 next to one of order 1, and a tiny rhs in its span
+        'blkscale': np.stack([b1, 1e-9 * b2], 1), 'tiny': 3e-9 * b2, 'tinyb1': 2e-10 * b1,
     }[name].copy()
 
 
 RHS_FULL = ['b1', 'b2', '2b1', 'b1+b2', 'zero', 'bc', 'ib1', 'blk12', 'blkdep', 'blksum', 'blkz', 'col']
 RHS_SMALL = ['b1', 'b1+b2', 'bc', 'zero', 'blkdep', 'blk12']
+RHS_SCALE = ['b1', 'b2', 'blkscale', 'tiny', 'tinyb1', 'blk12']
 UPD = ['same', 'vals', 'class0', 'class1']
 
 
@@ -333,6 +337,46 @@ def run_sequence(case, seq):
     return len(seq), None, ''.join(tag), nontrivial
 
 
+def run_pair(case, seq):
+    """Two live wrappers on two different matrices, operations interleaved; seq entries are [w, rhs, trans].
+    Each wrapper must answer for its own matrix (and reuse only its own history)."""
+    from pymoto.solvers import LDAWrapper
+    t = case['table']
+    mats = [matrix(case['mat'], t), matrix(case['mat2'], t + 1)]
+    inners = [make_inner(case['inner']), make_inner(case['inner'])]
+    ws = [LDAWrapper(inners[0]), LDAWrapper(inners[1])]
+    models = [rs.SpanModel(), rs.SpanModel()]
+    for w, A, m in zip(ws, mats, models):
+        w.update(storage(A, case['inner']))
+        m.update(A)
+    for k, (wi, rn, tr) in enumerate(seq):
+        A, w, model, inner = mats[wi], ws[wi], models[wi], inners[wi]
+        b = rhs(rn, t)
+        demand = model.must_reuse(tr, b)
+        calls0 = inner.calls
+        sigbase = {'cause': 'two_live_wrappers', 'trans': 'N' if tr == 'N' else 'T/H'}
+        try:
+            x = np.asarray(w.solve(b.copy(), trans=tr))
+        except Exception as e:  # noqa
+            if fresh_single_call(case, A, b, tr, {}) == 'raises':
+                return k + 1, None
+            return k + 1, {'check': 'raises_where_fresh_succeeds', 'signature': dict(sigbase, check='raises_where_fresh_succeeds',
+                                                                                   exc=type(e).__name__),
+                           'detail': {'seq': seq, 'step': k, 'error': str(e)[:300]}}
+        res = rel_residual(A, x, b, tr) if x.shape == b.shape else float('inf')
+        if not res <= 2 * w.tol:
+            alone = fresh_single_call(case, A, b, tr, {})
+            sig = dict(sigbase, check='residual') if alone == 'ok' else {'check': 'residual', 'cause': 'single_call',
+                                                                         'trans': sigbase['trans']}
+            return k + 1, {'check': 'residual', 'signature': sig,
+                           'detail': {'seq': seq, 'step': k, 'residual': res, 'wrapper': wi, 'matrix': A, 'rhs': b}}
+        if demand == 'yes' and inner.calls > calls0:
+            return k + 1, {'check': 'no_reuse', 'signature': dict(sigbase, check='no_reuse'),
+                           'detail': {'seq': seq, 'step': k, 'wrapper': wi}}
+        model.record(tr, b)
+    return len(seq), None
+
+
 def expand(shape, rhs_names, name):
     """All op lists for a tail shape such as ['S'], ['U','S'], ['S','S']."""
     choices = []
@@ -341,6 +385,8 @@ def expand(shape, rhs_names, name):
             choices.append(solve_ops(rhs_names))
         elif s == 's':
             choices.append(solve_ops(RHS_SMALL))
+        elif s == 'm':
+            choices.append(solve_ops(RHS_SCALE))
         elif s == 'X':
             choices.append([o + [g] for o in solve_ops(rhs_names) for g in ('x0zero', 'x0prev')])
         else:
@@ -349,6 +395,21 @@ def expand(shape, rhs_names, name):
 
 
 def execute(case):
+    if case.get('kind') == 'pair':
+        ops_a = solve_ops(case['rhs_alphabet'])
+        seqs = [[[0] + o1[1:], [1] + o2[1:], [0] + o3[1:]] for o1 in ops_a for o2 in ops_a for o3 in ops_a] \
+            if 'only' not in case else [case['only']]
+        V, nops = [], 0
+        for seq in seqs:
+            n, v = run_pair(case, seq)
+            nops += n
+            if v is not None:
+                v['case'] = dict(case, only=seq)
+                if not any(x['signature'] == v['signature'] for x in V):
+                    V.append(v)
+        return {'states': len(seqs), 'transitions': nops, 'checks': nops, 'nontrivial': True,
+                'key': [f"pair|{case['mat']}|{case['mat2']}|{i}" for i in range(len(seqs))], 'outcome': 'pair',
+                'violations': V}
     seqs = []
     for shape in case['tails']:
         for tail in expand(shape, case['rhs_alphabet'], case['mat']):
@@ -415,6 +476,19 @@ def generate(tier, seed):
             for op1 in solve_ops(RHS_SMALL):
                 yield {'mat': nm, 'table': t, 'inner': inner, 'flags': 'none', 'prefix': [op1],
                        'tails': [['X']], 'rhs_alphabet': RHS_SMALL}
+    yield {'__level__': 'depth2/magnitudes'}
+    mag_mats = [nm for nm in names if nm in ('r111111', 'rs111', 'c111111', 'ch111', 'cs111', 'r100100', 'r000001', 'rs001')]
+    for nm in (names if tier != 'quick' else mag_mats):
+        for op1 in solve_ops(RHS_SCALE):
+            yield {'mat': nm, 'table': t, 'inner': 'ref', 'flags': 'none', 'prefix': [op1],
+                   'tails': [['m']] if tier == 'quick' else [['m'], ['m', 'm']], 'rhs_alphabet': RHS_SCALE}
+    yield {'__level__': 'two-live-wrappers'}
+    pairs = [('r111111', 'r110110'), ('c111111', 'c101101'), ('rs111', 'r111111'), ('ch111', 'c111111'),
+             ('r100100', 'r111111'), ('cs111', 'cs011')]
+    for m1, m2 in pairs:
+        for inner in (('ref',) if tier == 'quick' else ('ref', 'lu')):
+            yield {'kind': 'pair', 'mat': m1, 'mat2': m2, 'table': t, 'inner': inner, 'flags': 'none',
+                   'rhs_alphabet': ['b1', 'b1+b2', 'bc', 'blk12'] if tier == 'quick' else RHS_SMALL}
     if tier == 'quick':
         return
     yield {'__level__': 'depth3/SSS/ref', 'count': len(names) * len(first)}
